@@ -62,6 +62,13 @@ def strategy(ctx) -> st.SearchStrategy:
         (1, st.tuples(st.just("tc_seeded"), st.integers(0, 3), st.integers(1, 3))),
         (5, st.tuples(st.just("tc_mutate"), i, seed)),
         (3, st.tuples(st.just("tc_crossover"), i, i, seed)),
+        # correlated draws: query f, operator, query f again on the same chromosome (the shape a stale cache needs)
+        (4, st.tuples(st.just("tc_qmq"), i, q, st.integers(0, 60), seed)),
+        (2, st.tuples(st.just("tc_qxq"), i, i, q, st.integers(0, 60), seed)),
+        (2, st.tuples(st.just("s_qmq"), i, q, st.integers(0, 3), seed)),
+        # query f, operator, clone, query f on the clone
+        (2, st.tuples(st.just("tc_qmcq"), i, q, st.integers(0, 60), seed)),
+        (2, st.tuples(st.just("s_qmcq"), i, q, st.integers(0, 3), seed)),
         (1, st.tuples(st.just("tc_clone"), i)),
         (1, st.tuples(st.just("tc_add_ff"), i, st.integers(0, 60))),
         (1, st.tuples(st.just("tc_add_cf"), i, st.integers(0, 1))),
@@ -222,7 +229,24 @@ def evaluate(case: dict[str, Any]) -> Outcome:  # noqa: C901, PLR0912, PLR0915
             return any((r := m.get_last_execution_result()) is not None and r.timeout for m in members)
 
         prologue = [["tc_new", *t] for t in case.get("init", [])] + ([["s_new", 3]] if case.get("init") else [])
+        expanded: list[list[Any]] = []
         for op in prologue + case["ops"]:
+            if op[0] == "tc_qmq":
+                expanded += [["tc_query", op[1], op[2], op[3]], ["tc_mutate", op[1], op[4]], ["tc_query", op[1], op[2], op[3]]]
+            elif op[0] == "tc_qxq":
+                expanded += [["tc_query", op[1], op[3], op[4]], ["tc_crossover", op[1], op[2], op[5]],
+                             ["tc_query", op[1], op[3], op[4]]]
+            elif op[0] == "s_qmq":
+                expanded += [["s_query", op[1], op[2], op[3]], ["s_mutate", op[1], op[4]], ["s_query", op[1], op[2], op[3]]]
+            elif op[0] == "tc_qmcq":
+                expanded += [["tc_query", op[1], op[2], op[3]], ["tc_mutate", op[1], op[4]], ["tc_clone", op[1]],
+                             ["tc_query", -1, op[2], op[3]]]
+            elif op[0] == "s_qmcq":
+                expanded += [["s_query", op[1], op[2], op[3]], ["s_mutate", op[1], op[4]], ["s_clone", op[1]],
+                             ["s_query", -1, op[2], op[3]]]
+            else:
+                expanded.append(op)
+        for op in expanded:
             name = op[0]
             if name == "tc_new":
                 c = s.chromosome(s.random_test_case(op[1], op[2]))
@@ -253,7 +277,7 @@ def evaluate(case: dict[str, Any]) -> Outcome:  # noqa: C901, PLR0912, PLR0915
             elif name.startswith("tc_"):
                 if not tcs:
                     continue
-                c = tcs[op[1] % len(tcs)]
+                c = tcs[-1] if op[1] == -1 else tcs[op[1] % len(tcs)]
                 before = code_of(c)
                 if name == "tc_mutate":
                     s.seed_rng(op[2])
@@ -298,7 +322,7 @@ def evaluate(case: dict[str, Any]) -> Outcome:  # noqa: C901, PLR0912, PLR0915
             elif name.startswith("s_"):
                 if not suites:
                     continue
-                su = suites[op[1] % len(suites)]
+                su = suites[-1] if op[1] == -1 else suites[op[1] % len(suites)]
                 before = code_of(su)
                 if name == "s_mutate":
                     if su.size() == 0:
